@@ -12,6 +12,8 @@ import (
 	"math/big"
 	"math/rand"
 	"sort"
+	"strings"
+	"time"
 
 	"github.com/dominant-strategies/go-quai/common"
 	"github.com/dominant-strategies/go-quai/core/rawdb"
@@ -94,10 +96,14 @@ type Engine struct {
 	recipients  []wallet.Key
 	qiKeys      []wallet.Key
 	freshCount  uint64
+	creditWrong map[int]bool
 	exists      map[common.Address]bool // existence of tracked Quai accounts after the previous block
 	qiRefunds   []*Conv                 // reverted Qi->Quai conversions executed in the block being observed
 	Stats       map[string]int
 	Verbose     bool
+	buffering   bool
+	buf         []map[string]interface{}
+	credited    []map[string]interface{} // credits observed in the block being observed
 }
 
 func (g *Engine) problem(kind string, kv ...interface{}) {
@@ -112,6 +118,10 @@ func (g *Engine) ev(op string, kv ...interface{}) {
 	m := map[string]interface{}{"op": op}
 	for i := 0; i+1 < len(kv); i += 2 {
 		m[kv[i].(string)] = kv[i+1]
+	}
+	if g.buffering {
+		g.buf = append(g.buf, m)
+		return
 	}
 	g.Events = append(g.Events, m)
 }
@@ -209,7 +219,7 @@ func (g *Engine) observe(id int) {
 	}
 	expCreated := map[string]string{} // utxo key -> why (outputs the oracle expects this block to create)
 	expDeleted := map[string]string{}
-	g.ev("tick", "h", int(h))
+	g.buffering, g.buf, g.credited = true, nil, []map[string]interface{}{}
 	g.qiRefunds = nil
 
 	// 1. redemption of conversions executed LockPeriod blocks ago (runs before the transactions)
@@ -249,6 +259,13 @@ func (g *Engine) observe(id int) {
 				// a refused conversion costs only the fee
 				addQ(c.Sender, new(big.Int).Neg(fee), fmt.Sprintf("failed tx of conv %d", c.ID))
 				c.State = "refused"
+				g.Stats["refused_at_origin"]++
+				if c.Want != "" {
+					g.Stats["spec_predictions_compared"]++
+					if c.Want != "refused" {
+						g.problem("outcome-kind-differs-from-specification", "conv", c.ID, "want", c.Want, "have", "refused")
+					}
+				}
 				g.ev("refused", "id", c.ID, "h", int(h))
 				continue
 			}
@@ -445,8 +462,12 @@ func (g *Engine) observe(id int) {
 		if c.Oracle != nil && c.Oracle.Implied != nil && c.Oracle.Implied.Sign() > 0 {
 			bp = ceilBP(c.Credit, c.Oracle.Implied)
 		}
-		g.ev("redeem", "id", c.ID, "h", int(h), "credit", bp, "exact", true)
+		g.credited = append(g.credited, map[string]interface{}{"id": c.ID, "credit": bp, "exact": !g.creditWrong[c.ID]})
 	}
+	g.buffering = false
+	g.Events = append(g.Events, map[string]interface{}{"op": "tick", "h": int(h), "credited": g.credited})
+	g.Events = append(g.Events, g.buf...)
+	g.buf = nil
 
 	// 6. a prime block confirms the conversions emitted before the previous region block
 	if b.Order == mininet.Prime {
@@ -487,11 +508,12 @@ func (g *Engine) classifyQuaiMismatch(a common.Address, h uint64, diff *big.Int)
 		if c.Dir == "i2q" && c.To == a && c.ObsVal != nil && c.State != "done" && c.DestH != 0 {
 			if diff.Cmp(c.ObsVal) == 0 && h < c.DestH+params.ConversionLockPeriod {
 				g.problem("credit-before-lock", "conv", c.ID, "h", h, "unlock", c.DestH+params.ConversionLockPeriod)
-				g.ev("redeem", "id", c.ID, "h", int(h), "credit", ceilBP(diff, c.Oracle.Implied), "exact", true)
+				g.credited = append(g.credited, map[string]interface{}{"id": c.ID, "credit": ceilBP(diff, c.Oracle.Implied), "exact": false})
 			}
 		}
 		if c.Dir == "i2q" && c.To == a && c.CreditH == h && diff.Sign() != 0 {
 			g.problem("credit-amount-differs", "conv", c.ID, "h", h, "have_minus_expected", diff)
+			g.creditWrong[c.ID] = true
 		}
 	}
 }
@@ -631,7 +653,11 @@ func (g *Engine) confirm(id int) {
 		if in[i].ToQi {
 			dir = "q2i"
 		}
-		sig := []interface{}{"dir", dir, "prime", pnum, "kq", pb.KQuaiDiscount(), "increasing", increasing, "slip", in[i].Slip, "orig", in[i].Value, "flow", pb.ConversionFlowAmount(), "total", total}
+		regime := "postfork"
+		if swap {
+			regime = "prefork"
+		}
+		sig := []interface{}{"regime", regime, "dir", dir, "prime", pnum, "kq", pb.KQuaiDiscount(), "increasing", increasing, "slip", in[i].Slip, "orig", in[i].Value, "flow", pb.ConversionFlowAmount(), "total", total}
 		if c != nil {
 			sig = append(sig, "conv", c.ID, "via", c.Via, "amtcls", c.AmtCls)
 		}
@@ -687,6 +713,12 @@ func (g *Engine) confirm(id int) {
 			if revert {
 				kind = "revert"
 			}
+			if c.Want != "" {
+				g.Stats["spec_predictions_compared"]++
+				if c.Want != kind {
+					g.problem("outcome-kind-differs-from-specification", append(sig, "want", c.Want, "have", kind)...)
+				}
+			}
 			outcome = append(outcome, map[string]interface{}{"id": c.ID, "kind": kind, "val": valBP, "floor": floorBPv, "oracle_eq": oracleEq, "le_implied": leImplied, "ge_floor": geFloor, "slip_ok": slipOK})
 		}
 	}
@@ -694,6 +726,41 @@ func (g *Engine) confirm(id int) {
 }
 
 // ---------------------------------------------------------------- submission
+
+// addTx hands a transaction to the pool; the pool follows the chain head asynchronously, so a
+// submission right after a new block may still be judged against the previous state: retry briefly.
+func (g *Engine) addTx(tx *types.Transaction) error {
+	var err error
+	for dl := time.Now().Add(3 * time.Second); time.Now().Before(dl); time.Sleep(5 * time.Millisecond) {
+		err = g.E.AddTx(tx)
+		if err == nil || !(strings.Contains(err.Error(), "insufficient funds") || strings.Contains(err.Error(), "nonce")) {
+			return err
+		}
+	}
+	return err
+}
+
+// pendingTxRoot: transaction root of the pending block after a synchronous refill from the pool.
+func (g *Engine) pendingTxRoot() common.Hash {
+	if err := g.E.Net.Refill(); err != nil {
+		fatalf("refill: %v", err)
+	}
+	ph, err := g.E.Net.Pending()
+	if err != nil {
+		fatalf("pending: %v", err)
+	}
+	// the pending header carries the body's commitments: any of them changes when a transaction joins
+	return types.RlpHash([]interface{}{ph.TxHash(), ph.WorkObjectHeader().HeaderHash(), ph.GasUsed(), ph.EVMRoot(), ph.UTXORoot(), ph.OutboundEtxHash()})
+}
+
+// forget drops a conversion that the worker refused to include.
+func (g *Engine) forget(c *Conv) {
+	delete(g.byTx, c.TxHash)
+	g.Convs = g.Convs[:len(g.Convs)-1]
+	g.Events = g.Events[:len(g.Events)-1]
+	h := c.TxHash
+	g.E.Net.ZoneCore().TxPool().RemoveQiTxs([]*common.Hash{&h})
+}
 
 func slipData(slip int) []byte {
 	if slip < 0 {
@@ -708,7 +775,7 @@ func (g *Engine) submitTransfer(from wallet.Key, to common.Address, amount *big.
 	if err != nil {
 		fatalf("sign: %v", err)
 	}
-	if err := g.E.AddTx(tx); err != nil {
+	if err := g.addTx(tx); err != nil {
 		fatalf("pool rejected conversion transfer: %v", err)
 	}
 	c := &Conv{ID: len(g.Convs) + 1, Dir: "q2i", Via: "transfer", Amount: new(big.Int).Set(amount), Slip: slip, Sender: from.Addr, To: to, TxHash: tx.Hash(), TxValue: amount, GasPrice: gp, State: "submitted", AmtCls: amtCls, GasCls: gasCls}
@@ -734,7 +801,7 @@ func (g *Engine) submitOpcode(from wallet.Key, to common.Address, amount *big.In
 	if err != nil {
 		fatalf("sign: %v", err)
 	}
-	if err := g.E.AddTx(tx); err != nil {
+	if err := g.addTx(tx); err != nil {
 		fatalf("pool rejected converter call: %v", err)
 	}
 	c := &Conv{ID: len(g.Convs) + 1, Dir: "q2i", Via: "opcode", Amount: new(big.Int).Set(amount), Slip: -1, Sender: from.Addr, To: to, TxHash: tx.Hash(), TxValue: val, GasPrice: gp, State: "submitted", AmtCls: amtCls, GasCls: "opcode"}
@@ -766,6 +833,9 @@ func (g *Engine) submitQi(owner wallet.Key, ins []chain.Utxo, denoms []uint8, to
 	rest.Sub(rest, big.NewInt(feeQits))
 	if rest.Sign() < 0 {
 		return nil, fmt.Errorf("inputs too small")
+	}
+	if gasCls == "tight" {
+		rest = new(big.Int) // exact-fee mode: the caller chose the outputs so that inputs - outputs is the fee
 	}
 	// change: one output per greedy denomination would need distinct addresses; use a single change
 	// output of the largest denomination that fits and leave the remainder as additional fee
@@ -801,9 +871,10 @@ func (g *Engine) submitQi(owner wallet.Key, ins []chain.Utxo, denoms []uint8, to
 }
 
 // deployConverter deploys the CONVERT wrapper (hand-assembled):
-//   runtime: PUSH1 0x40 CALLDATALOAD  PUSH1 0x20 CALLDATALOAD  PUSH1 0 CALLDATALOAD  GAS  CONVERT  PUSH1 0 SSTORE  STOP
+//   runtime: PUSH1 0x40 CALLDATALOAD  PUSH1 0x20 CALLDATALOAD  PUSH1 0 CALLDATALOAD  GAS  CONVERT
+//            PUSH1 0x12 JUMPI  PUSH1 0 DUP1 REVERT  JUMPDEST STOP        (reverts when CONVERT reports failure)
 func (g *Engine) deployConverter(from wallet.Key) {
-	runtime := []byte{0x60, 0x40, 0x35, 0x60, 0x20, 0x35, 0x60, 0x00, 0x35, 0x5a, 0xf8, 0x60, 0x00, 0x55, 0x00}
+	runtime := []byte{0x60, 0x40, 0x35, 0x60, 0x20, 0x35, 0x60, 0x00, 0x35, 0x5a, 0xf8, 0x60, 0x12, 0x57, 0x60, 0x00, 0x80, 0xfd, 0x5b, 0x00}
 	init := []byte{0x60, byte(len(runtime)), 0x80, 0x60, 0x0b, 0x60, 0x00, 0x39, 0x60, 0x00, 0xf3}
 	code := append(init, runtime...)
 	nonce := g.nextNonce(from)
@@ -820,7 +891,7 @@ func (g *Engine) deployConverter(from wallet.Key) {
 	if err != nil {
 		fatalf("sign: %v", err)
 	}
-	if err := g.E.AddTx(tx); err != nil {
+	if err := g.addTx(tx); err != nil {
 		fatalf("deploy converter: %v", err)
 	}
 	g.Converter = addr
